@@ -2,6 +2,7 @@
 import Preflate.Driver.Wire
 import Preflate.Model.Container
 import Preflate.Model.IO
+import Preflate.Model.Library
 namespace Preflate.Driver
 open Preflate
 
@@ -54,6 +55,19 @@ def scanLine (f : List UInt8) (entries : List String) : String :=
           | .error (.panic _) => "panic"
           | .error _ => "err"
         s!"ok {c.length} {fnvNats c} {back}"
+
+/-- `library` request: the WHOLE library in the model — `expand_zlib_chunks` then `recreated_zlib_chunks`
+    with the concrete stream functions (`libOracle`: the byte-level model of decompress_deflate_stream /
+    recompress_deflate_stream; no recorded answers from the code) — `Props/Library.lean` is about these
+    functions -/
+def libraryLine (f : List UInt8) : String :=
+  let src := toNats f
+  outcome (libExpand crc32 src) fun c =>
+    let back := match libRecreate crc32 c with
+      | .ok g => toString (fnvNats g)
+      | .error (.panic _) => "panic"
+      | .error _ => "err"
+    s!"ok {c.length} {fnvNats c} {back}"
 
 def parseSched (t : String) : Option (List IoEv) :=
   if t == "-" then some [] else
